@@ -4,7 +4,7 @@ enumerated by TLC out of specs/StmtShapes.tla, and runs them on real SQLite engi
 A shape travels as its name  "k|f|c|w|d|o"  (StmtShapes!Name):
   k  sel | orm | ins | upd | del | lam | ddl    statement kind (ddl: CREATE TABLE d)
   f  a | join | outer | s1 | xjoin              FROM: a / a JOIN b / a LEFT JOIN b / s1.a / a JOIN s1.a
-  c  none | eq | in | eqand | orin              criteria (lam: lscalar | llist | lcol | ltab | lmulti | lwhere | lcrit)
+  c  none | eq | in | eqand | orin              criteria (lam: lscalar | llist | lcol | ltab | lmulti | lwhere | lcrit | lexpr)
   w  none | subq | cte | union | exists         wrapping
   d  none | limit | label | distinct            decoration
   o  none | selectin | joined | defer           ORM loader option   (DML: none | ret  = RETURNING id)
@@ -104,6 +104,10 @@ def lam_where(a, lst, w):
     return sa.select(a.c.id, a.c.x).where(lambda: a.c.y == w).where(lambda: a.c.x.in_(lst))
 
 
+def lam_expr(a, crit):
+    return sa.lambda_stmt(lambda: sa.select(a.c.id, a.c.x).where(crit))
+
+
 def lam_crit(v):
     return sa.select(A).options(with_loader_criteria(A, lambda cls: cls.x == v))
 
@@ -131,6 +135,9 @@ def build_lambda(sh, val, T):
         return lam_where(a, lst, b), sa.select(a.c.id, a.c.x).where(a.c.y == b).where(a.c.x.in_(lst))
     if c == "lcrit":
         return lam_crit(v), sa.select(A).where(A.x == v)
+    if c == "lexpr":
+        # the closure holds a finished SQL expression with an embedded literal (its bound value is extracted from the closure element)
+        return lam_expr(a, a.c.x == v), sa.select(a.c.id, a.c.x).where(a.c.x == v)
     raise ValueError(sh)
 
 
